@@ -296,7 +296,11 @@ Definition sat (ps : list tp3) (r : binding) : Prop :=
 
 Lemma in_match_nonempty {A B} (l : list A) (X : list B) r :
   In r (match l with [] => [] | _ :: _ => X end) <-> (l <> [] /\ In r X).
-Proof. destruct l; simpl; split; try tauto; intros H; [split; [discriminate | auto] | tauto]. Qed.
+Proof.
+  destruct l; simpl.
+  - split; [intros [] | intros [H _]; congruence].
+  - split; [intros H; split; [discriminate | auto] | tauto].
+Qed.
 
 Lemma bgp_rec_spec ps : forall b, wfbind b = true -> forall r,
   In r (bgp_rec qmG ps b gm) <->
@@ -354,4 +358,136 @@ Proof.
         apply (IH b' (populate3_wf _ _ _ _ P Hb)). split; [auto|]. split; [auto|]. split.
         -- unfold dom_add in *. intros a. rewrite (Hd a), (D a). simpl. rewrite in_app_iff. tauto.
         -- intros tp' Hin. apply Hs. right. exact Hin.
+Qed.
+
+Lemma bgp_rec_NoDup ps : forall b, wfbind b = true -> NoDup (bgp_rec qmG ps b gm).
+Proof.
+  induction ps as [|tp ps IH]; intros b Hb.
+  - simpl. constructor; [intros [] | constructor].
+  - rewrite bgp_rec_cons. unfold qmG at 1 2.
+    set (matches := filter (matches3 (build3 tp b)) G).
+    assert (Hm : forall m, In m matches -> In m G /\ matches3 (build3 tp b) m = true)
+      by (intros; apply filter_In; auto).
+    assert (Hnd : NoDup matches) by (apply NoDup_filter; exact G_nodup).
+    destruct matches as [|m1 ms] eqn:EM; [constructor|]. rewrite <- EM in *. clear EM m1 ms.
+    destruct (all_bound3 (build3 tp b)); [apply IH; auto|].
+    (* a row found through the match m instantiates the pattern to m *)
+    assert (Hi : forall m r, In m matches -> In r (bgp_step qmG tp ps b gm m) -> inst3 tp r = Some m).
+    { intros m r Hmin Hin. apply Hm in Hmin as [_ HM]. unfold bgp_step in Hin.
+      destruct (populate3 tp m b) as [b'|] eqn:P; [|destruct Hin].
+      destruct (populate3_sound _ _ _ _ P (matches3_shape _ _ _ HM)) as [_ [I _]].
+      apply (bgp_rec_spec ps b' (populate3_wf _ _ _ _ P Hb)) in Hin as [_ [He _]].
+      eapply inst3_ext; eauto. }
+    apply NoDup_flat_map; auto.
+    + intros m Hmin. unfold bgp_step. destruct (populate3 tp m b) as [b'|] eqn:P; [|constructor].
+      apply IH. eapply populate3_wf; eauto.
+    + intros m m' r H1 H2 R1 R2. pose proof (Hi _ _ H1 R1). pose proof (Hi _ _ H2 R2). congruence.
+Qed.
+End OneGraph.
+
+(* ---------- 18.3: the enumeration of all pattern instance mappings ---------- *)
+Lemma NoDup_map_inj_on {A B} (f : A -> B) l :
+  (forall x y, In x l -> In y l -> f x = f y -> x = y) -> NoDup l -> NoDup (map f l).
+Proof.
+  intros Hf. induction 1 as [|x l Hx Hl IH]; simpl; constructor.
+  - rewrite in_map_iff. intros [y [E Hy]]. apply Hf in E; [subst; contradiction | right; auto | left; auto].
+  - apply IH. intros; apply Hf; auto; right; auto.
+Qed.
+
+Lemma assigns_spec U xs : NoDup xs -> forall r,
+  In r (assigns xs U) <->
+  (wfbind r = true /\ (forall a, get a r <> None <-> In a xs)
+   /\ (forall a t, get a r = Some t -> In t U)).
+Proof.
+  induction 1 as [|a xs Ha Hxs IH]; intros r.
+  - simpl. split.
+    + intros [<-|[]]. split; [reflexivity|]. split.
+      * intros a. destruct a; simpl; tauto.
+      * intros a t. destruct a; discriminate.
+    + intros [Hr [Hd _]]. left. apply binding_ext; auto. intros a.
+      destruct (get a r) eqn:E; [|destruct a; reflexivity].
+      exfalso. apply (proj1 (Hd a)). congruence.
+  - simpl. rewrite in_flat_map. split.
+    + intros [t [Ht Hin]]. apply in_map_iff in Hin as [r' [<- Hin]].
+      apply IH in Hin as [Hr [Hd Hu]]. split; [apply wfbind_set; auto|]. split.
+      * intros a'. rewrite get_set. destruct (atom_eqb a' a) eqn:E.
+        -- apply atom_eqb_eq in E. split; [auto | congruence].
+        -- rewrite Hd. split; [auto|]. intros [->|H]; auto.
+           assert (atom_eqb a' a' = true) by (apply atom_eqb_eq; reflexivity). congruence.
+      * intros a' t'. rewrite get_set. destruct (atom_eqb a' a); [congruence | apply Hu].
+    + intros [Hr [Hd Hu]].
+      destruct (get a r) as [t|] eqn:G; [|exfalso; apply (proj2 (Hd a)); [left; reflexivity | exact G]].
+      exists t. split; [eauto|]. apply in_map_iff. exists (unset a r). split.
+      * apply binding_ext; auto using wfbind_set, wfbind_unset. intros a'.
+        rewrite get_set, get_unset. destruct (atom_eqb a' a) eqn:E.
+        -- apply atom_eqb_eq in E. subst. auto.
+        -- destruct (atom_eqb a a') eqn:E'; [|reflexivity].
+           apply atom_eqb_eq in E'. subst.
+           assert (atom_eqb a' a' = true) by (apply atom_eqb_eq; reflexivity). congruence.
+      * apply IH. split; [apply wfbind_unset; auto|]. split.
+        -- intros a'. rewrite get_unset. destruct (atom_eqb a a') eqn:E.
+           ++ apply atom_eqb_eq in E. subst. split; [congruence | intros; contradiction].
+           ++ rewrite Hd. split; [intros [->|H]; auto | auto].
+              assert (atom_eqb a' a' = true) by (apply atom_eqb_eq; reflexivity). congruence.
+        -- intros a' t'. rewrite get_unset. destruct (atom_eqb a a'); [discriminate | apply Hu].
+Qed.
+
+Lemma assigns_NoDup U xs : NoDup xs -> NoDup U -> NoDup (assigns xs U).
+Proof.
+  intros Hxs HU. induction Hxs as [|a xs Ha Hxs IH]; simpl.
+  - constructor; [intros [] | constructor].
+  - apply NoDup_flat_map; auto.
+    + intros t _. apply NoDup_map_inj_on; auto.
+      intros r1 r2 H1 H2 E. apply (assigns_spec U xs Hxs) in H1 as [W1 [D1 _]].
+      apply (assigns_spec U xs Hxs) in H2 as [W2 [D2 _]].
+      apply binding_ext; auto. intros a'.
+      destruct (atom_eqb a' a) eqn:Ea.
+      * apply atom_eqb_eq in Ea. subst.
+        destruct (get a r1) eqn:G1; [exfalso; apply Ha, D1; congruence|].
+        destruct (get a r2) eqn:G2; [exfalso; apply Ha, D2; congruence|]. reflexivity.
+      * assert (H : get a' (set a t r1) = get a' (set a t r2)) by (rewrite E; reflexivity).
+        rewrite !get_set, Ea in H. exact H.
+    + intros t1 t2 z _ _ H1 H2. apply in_map_iff in H1 as [r1 [<- _]].
+      apply in_map_iff in H2 as [r2 [E _]].
+      assert (H : get a (set a t2 r2) = get a (set a t1 r1)) by (rewrite E; reflexivity).
+      rewrite !get_set_eq in H. congruence.
+Qed.
+
+(* ---------- the BGP theorem ---------- *)
+Lemma forallb_sat3 G ps r :
+  forallb (sat3 G r) ps = true <-> sat G ps r.
+Proof.
+  unfold sat. rewrite forallb_forall. split; intros H tp Hin; specialize (H tp Hin); unfold sat3 in *.
+  - destruct (inst3 tp r) as [m|]; [|discriminate]. exists m. split; auto.
+    apply (memb_In _ triple_eqb_eq). exact H.
+  - destruct H as [m [-> H]]. apply (memb_In _ triple_eqb_eq). exact H.
+Qed.
+
+Theorem bgp_rec_is_spec G gm ps : NoDup G ->
+  Permutation (bgp_rec (qmG G) ps empty_binding gm) (spec_bgp_full G ps).
+Proof.
+  intros HG. apply NoDup_Permutation.
+  - apply bgp_rec_NoDup; auto.
+  - unfold spec_bgp_full. apply NoDup_filter. apply assigns_NoDup.
+    + apply (dedupb_NoDup _ atom_eqb_eq).
+    + apply (dedupb_NoDup _ teq_eq).
+  - intros r. rewrite (bgp_rec_spec G gm ps empty_binding wfbind_empty).
+    unfold spec_bgp_full, bgp_atoms. rewrite filter_In, forallb_sat3.
+    rewrite (assigns_spec _ _ (dedupb_NoDup _ atom_eqb_eq _)).
+    unfold dom_add.
+    assert (He : forall a, get a empty_binding = None) by (intros [?|?]; reflexivity).
+    split.
+    + intros [Hr [_ [Hd Hs]]]. split; [|auto]. split; [auto|]. split.
+      * intros a. rewrite (dedupb_In _ atom_eqb_eq), (Hd a), He. split; [intros [H|H]; congruence || auto | auto].
+      * intros a t Ga.
+        assert (Hin : In a (flat_map atoms3 ps)).
+        { assert (H : get a r <> None) by congruence. apply Hd in H. rewrite He in H.
+          destruct H; [congruence | auto]. }
+        apply in_flat_map in Hin as [tp [Htp Hat]].
+        destruct (Hs tp Htp) as [[[s p] o] [Im Hm]].
+        unfold universe. apply (dedupb_In _ teq_eq). apply in_flat_map.
+        exists (s, p, o). split; [auto|]. eapply inst3_subterm; eauto.
+    + intros [[Hr [Hd Hu]] Hs]. split; [auto|]. split; [intros a t; rewrite He; discriminate|].
+      split; [|auto]. intros a. rewrite (Hd a), (dedupb_In _ atom_eqb_eq), He. split; [auto|].
+      intros [H|H]; [congruence | auto].
 Qed.
